@@ -162,6 +162,14 @@ def reorder_strict_marker(peer, position):
     """Peer-side tool: every KEXINIT this transport sends lists its `kex-strict-*` name at index `position` of the kex
     list (clamped) instead of at the end; the transport's own copy of the KEXINIT (hashed into the exchange) is
     updated accordingly."""
+    return rewrite_kexinit(peer, marker_pos=position)
+
+
+def rewrite_kexinit(peer, marker_pos=None, follows=None, kex_first=None):
+    """Peer-side tool: rewrite every KEXINIT this transport sends — strict marker moved to index `marker_pos`,
+    `first_kex_packet_follows` set to `follows`, the kex name `kex_first` moved to the front of the list — and keep the
+    transport's own copy of the KEXINIT (hashed into the exchange) in step."""
+    want_follows = follows
     from paramiko import Message
 
     orig = peer._send_message
@@ -176,21 +184,76 @@ def reorder_strict_marker(peer, position):
         follows = mm.get_boolean()
         reserved = mm.get_int()
         kex = lists[0]
-        markers = [x for x in kex if x.startswith("kex-strict-")]
-        rest = [x for x in kex if not x.startswith("kex-strict-")]
-        pos = max(0, min(position, len(rest)))
-        lists[0] = rest[:pos] + markers + rest[pos:]
+        if kex_first is not None and kex_first in kex:
+            kex = [kex_first] + [x for x in kex if x != kex_first]
+        if marker_pos is not None:
+            markers = [x for x in kex if x.startswith("kex-strict-")]
+            rest = [x for x in kex if not x.startswith("kex-strict-")]
+            pos = max(0, min(marker_pos, len(rest)))
+            kex = rest[:pos] + markers + rest[pos:]
+        lists[0] = kex
+        if want_follows is not None:
+            follows = bool(want_follows)
         new = Message()
         new.add_byte(b"\x14")
         new.add_bytes(cookie)
         for lst in lists:
             new.add_list(lst)
-        new.add_boolean(follows)
+        new.add_boolean(bool(follows))
         new.add_int(reserved)
         peer.local_kex_init = peer._latest_kex_init = new.asbytes()
         return orig(new)
 
     peer._send_message = send_message
+
+
+def run_judges_every_packet():
+    """AST of Transport.run, loop body: between the statement that calls `packetizer.read_message()` and the
+    `_expected_packet` test, every branch that leaves the iteration with `continue` first calls `_enforce_strict_kex`
+    (the IGNORE and DEBUG branches); nothing else on that path can skip a packet.  None if the shape is not found."""
+    import paramiko.transport as T
+
+    try:
+        tree = ast.parse(textwrap.dedent(inspect.getsource(T.Transport.run)))
+    except (OSError, SyntaxError):
+        return None
+    loop = next((n for n in ast.walk(tree) if isinstance(n, ast.While) and isinstance(n.test, ast.Attribute)
+                 and n.test.attr == "active"), None)
+    if loop is None:
+        return None
+    read_at = exp_at = None
+    for i, st in enumerate(loop.body):
+        if read_at is None and isinstance(st, ast.Try) and any(
+                isinstance(x, ast.Attribute) and x.attr == "read_message" for x in ast.walk(st)):
+            read_at = i
+        if exp_at is None and isinstance(st, ast.If) and any(
+                isinstance(x, ast.Attribute) and x.attr == "_expected_packet" for x in ast.walk(st.test)):
+            exp_at = i
+    if read_at is None or exp_at is None or read_at >= exp_at:
+        return None
+    ok = True
+
+    def check_block(stmts):
+        nonlocal ok
+        if any(isinstance(x, ast.Continue) for x in stmts):
+            if not any(isinstance(c, ast.Call) and isinstance(c.func, ast.Attribute)
+                       and c.func.attr == "_enforce_strict_kex" for x in stmts for c in ast.walk(x)):
+                ok = False
+        for x in stmts:
+            if isinstance(x, ast.If):
+                check_block(x.body)
+                check_block(x.orelse)
+            elif isinstance(x, (ast.While, ast.For, ast.With, ast.Try)):
+                ok = False          # nothing of that kind belongs between reading and judging a packet
+
+    between = loop.body[read_at + 1:exp_at]
+    for st in between:
+        if isinstance(st, ast.If):
+            check_block(st.body)
+            check_block(st.orelse)
+        elif not isinstance(st, (ast.Assign, ast.Expr)):
+            ok = False
+    return ok
 
 
 def read_tables():
@@ -252,11 +315,14 @@ def lean_tables(tables, consts, total):
         "def readMessageDeliversEveryPacket : Bool := %s\n\n"
         "/-- Transport._parse_kex_init scans the whole kex name list for the pseudo-algorithm names -/\n"
         "def markerScanCoversWholeList : Bool := %s\n\n"
+        "/-- Transport.run: no packet is skipped between read_message() and the strict-kex / expected-packet tests -/\n"
+        "def runJudgesEveryPacket : Bool := %s\n\n"
         "end PV.Generated.C12\n" % (cl, "true" if total else "false", tables["highestUserauth"], body,
                                       "true" if run_check_order() else "false",
                                       "true" if run_replies_fixed_width() else "false",
                                       "true" if read_message_one_packet_per_call() else "false",
-                                      "true" if marker_scan_covers_whole_list() else "false")
+                                      "true" if marker_scan_covers_whole_list() else "false",
+                                      "true" if run_judges_every_packet() else "false")
     )
 
 
